@@ -596,7 +596,8 @@ fn get_fields(
                         let agg_field = if field.field.is_system {
                             field.field.name.clone()
                         } else {
-                            js_field(f)
+                            //->> gives the SQL value: with -> the JSON texts would be compared ("9" > "10")
+                            format!("_json->>'$.{}'", f)
                         };
                         format!("'{}', max({}) ", &field.name(), agg_field)
                     }
@@ -604,7 +605,8 @@ fn get_fields(
                         let agg_field = if field.field.is_system {
                             field.field.name.clone()
                         } else {
-                            js_field(f)
+                            //->> gives the SQL value: with -> the JSON texts would be compared ("9" > "10")
+                            format!("_json->>'$.{}'", f)
                         };
                         format!("'{}', min({}) ", &field.name(), agg_field)
                     }
